@@ -1173,6 +1173,9 @@ class Machine:
             for fd in fdoms:
                 c = [k for k, v in dm.items() if v == fd]
                 names.append(c[a[6] % len(c)] if c and a[7] % 6 else M.NL[a[6] % 3])
+            if mode == 3 and len(names) >= 2:
+                # a label type that repeats one node label: every occurrence has to be checked against the factor's domain
+                names = [names[0]] * len(names)
             el = self.fggs.EdgeLabel(M.ELN[a[3] % len(M.ELN)], [self.fggs.NodeLabel(x) for x in names],
                                      is_terminal=bool(a[5] % 7), is_nonterminal=not bool(a[5] % 7))
         lab = M.s_label(el)
